@@ -131,14 +131,18 @@ func (db *MultiBucketBackend) ListBucket(bucket string, prefix *gofakes3.Prefix,
 func (db *MultiBucketBackend) getBucketWithFilePrefixLocked(bucket string, prefixPath, prefixPart string) (*gofakes3.ObjectList, error) {
 	bucketPath := path.Join(bucket, prefixPath)
 
+	response := gofakes3.NewObjectList()
+
 	dirEntries, err := afero.ReadDir(db.bucketFs, filepath.FromSlash(bucketPath))
 	if os.IsNotExist(err) {
+		if exists, _ := afero.DirExists(db.bucketFs, bucket); exists {
+			// No key starts with the directory part of the prefix:
+			return response, nil
+		}
 		return nil, gofakes3.BucketNotFound(bucket)
 	} else if err != nil {
 		return nil, err
 	}
-
-	response := gofakes3.NewObjectList()
 
 	for _, entry := range dirEntries {
 		object := entry.Name()
